@@ -89,8 +89,9 @@ class VNone(V):
 class VTuple(V):
     kind = "tuple"
 
-    def __init__(self, items):
+    def __init__(self, items, names=None):
         self.items = list(items)
+        self.names = list(names) if names else None      # field names of a collections.namedtuple value
 
     def __repr__(self):
         return "VTuple(%r)" % (self.items,)
